@@ -480,8 +480,6 @@ def hazardous(text):
             mm = re.match(r"^[+]?(\d+)", tok)
             if mm and int(mm.group(1)) > 100000:
                 ks = "1"
-    if "<SurfaceMesh" in text:
-        ks += "E"        # K13: SurfaceMesh::write omits the line break after </SurfaceMesh>
     return ("K" + ks) if ks else None
 
 
@@ -1153,13 +1151,9 @@ K_KINDS = {
     "B": ("abort", "timeout", "other-exception", "sanitizer-asan", "sanitizer-ubsan", "accepted", "rterr", "rtdiff"),
     # K11: deduct_topology stores an out-of-bounds sentinel for a parent vertex that is not in the part
     "C": ("sanitizer-asan", "abort", "rterr", "accepted"),
-    # K12: a topology="parent" part with an entity count of zero below a non-zero one (the K6 fix covers "full" only)
-    "D": ("rterr",),
-    # K13: the written form of a SurfaceMesh chart ("</SurfaceMesh>  </Chart>" on one line) is rejected by the reader
-    "E": ("rterr",),
 }
-K_ORDER = "B1CDE"
-K_NAME = {"B": "1", "C": "11", "D": "12", "E": "13"}
+K_ORDER = "B1C"
+K_NAME = {"B": "1", "C": "11"}
 
 
 def first_content_line(text):
@@ -1626,9 +1620,11 @@ def corpus_cases():
         ("RKC", H + M + part('<Mapping dim="0">\n0\n1\n</Mapping>\n<Mapping dim="1">\n1\n</Mapping>\n', 'topology="parent" size="2 1"') + E, None),
         ("RKC", H + M + part('<Mapping dim="0">\n0\n1\n</Mapping>\n<Mapping dim="1">\n0\n</Mapping>\n<Mapping dim="2">\n0\n</Mapping>\n',
                              'topology="parent" size="2 1 1"') + E, None),
-        # K12 (open): parent part without edges but with a cell: accepted, the writer's output is rejected
-        ("UKD", H + M + part('<Mapping dim="0">\n0\n1\n2\n3\n</Mapping>\n<Mapping dim="2">\n0\n</Mapping>\n',
-                             'topology="parent" size="4 0 1"') + E, None),
+        # former K12: parent part without edges but with a cell (the zero-below check now covers topology="parent")
+        ("R", H + M + part('<Mapping dim="0">\n0\n1\n2\n3\n</Mapping>\n<Mapping dim="2">\n0\n</Mapping>\n',
+                             'topology="parent" size="4 0 1"') + E, CE),
+        ("A", H + M + part('<Mapping dim="0">\n0\n1\n2\n3\n</Mapping>\n<Mapping dim="1">\n0\n1\n2\n3\n</Mapping>\n'
+                           '<Mapping dim="2">\n0\n</Mapping>\n', 'topology="parent" size="4 4 1"') + E, None),
         # charts: Circle with / without domain (2D), wrong kinds and malformed attributes
         ("A", H + '<Chart name="c">\n<Circle radius="0.5" midpoint="1 2" domain="0 4" >\n</Circle>\n</Chart>\n' + M + E, None),
         ("R", H + '<Chart name="c">\n<Sphere radius="0.5" midpoint="1 2 3" />\n</Chart>\n' + M + E, GE),
